@@ -475,13 +475,21 @@ fn run_inner(property: &str, thorough: bool, deadline: Instant) -> Vec<PartOut> 
                     (true, false) => 4,
                 };
                 for &max_bytes in tokens::MAX_BYTES.iter() {
-                    plans.push(Plan::<tokens::BloomSys> {
-                        cfg: tokens::BloomCfg {
-                            max_bytes,
-                            any_order,
-                        },
-                        depth,
-                    });
+                    for lifetime_ms in [10_000u64, 1_500, 700] {
+                        // the additional lifetimes run one level shallower
+                        let depth = if lifetime_ms == 10_000 { depth } else { depth - 1 };
+                        if lifetime_ms != 10_000 && any_order {
+                            continue;
+                        }
+                        plans.push(Plan::<tokens::BloomSys> {
+                            cfg: tokens::BloomCfg {
+                                max_bytes,
+                                any_order,
+                                lifetime_ms,
+                            },
+                            depth,
+                        });
+                    }
                 }
             }
             parts.push(run_part::<tokens::BloomSys>(
@@ -489,7 +497,7 @@ fn run_inner(property: &str, thorough: bool, deadline: Instant) -> Vec<PartOut> 
                 Mode::Enumerate,
                 plans,
                 json!({
-                    "check_and_insert": "nonce in {1,2,3} x issued in t0 + {0,1,2,3,4,6,10} x L/2, lifetime L = 10 s",
+                    "check_and_insert": "nonce in {1,2,3} x issued in t0 + {0,1,2,3,4,6,10} x L/2, lifetime L in {10 s, 1.5 s, 0.7 s}",
                     "enabled": "any_order=false: only presentations a server with a monotone clock would pass to the log (issued + L >= largest issue time seen); any_order=true: everything, a double acceptance in a history outside the contract is only an outcome",
                     "max_bytes": "default, 64, 16, 0",
                 }),
